@@ -1111,7 +1111,8 @@ func rulesC09(r *Run) {
 	ruleFixAction(r, "R2")
 	ruleFixNotStarted(r, "R2")
 	r.CallersWithin("R2", pkgSM+".resetAction", pkgSM+".fixAction", pkgSM+".fixChecks")
-	r.Expect("R2", 8)
+	ruleRepairThenClassifyAll(r, "R2")
+	r.Expect("R2", 10)
 
 	r.Kind("R3", "K10")
 	for _, k := range []string{pkgSM + ".fixAction", pkgSM + ".fixChecks", pkgSM + ".fixSeq", smKey("fixBlock"), smKey("fixPlan")} {
@@ -1745,4 +1746,122 @@ func ruleGateRunsContChecks(r *Run, rule, fnKey, owner string) {
 		bad = short + " never runs the ContChecks"
 	}
 	r.Check(rule, short+":cont-only-scope-is-gated", bpos, bad == "", "%s", orOK(bad, "PreChecks absent ∧ ContChecks present ⇒ every exit ran the ContChecks once"))
+}
+
+// ruleRepairThenClassify (round-3 seed C03-6): a recovery function that walks its children, repairs each
+// (fixBlock / fixSeq / fixAction) and counts them by status must classify a child by the status it has
+// AFTER the repair: fixBlock can turn a Running block into a Failed one, and a plan that counted it as
+// Running resumes and runs the blocks behind a failed block. Decided per loop iteration: the
+// last status test of the element must come after the repair call
+// of that iteration — unless the iteration is impossible for a Running element (the repair functions
+// leave anything else untouched, C09-R3). "Classified" is the last test of the element's status in the
+// iteration: what is counted, collected or resumed hangs on it.
+func ruleRepairThenClassify(r *Run, rule, fnKey, fixKey, owner string) {
+	fn := r.fnByKey(rule, fnKey)
+	if fn == nil {
+		return
+	}
+	fl, paths, ok := r.flowPaths(rule, fn)
+	if !ok {
+		return
+	}
+	info := fl.Info
+	paths = fl.OwnOnly(paths)
+	// the loop whose body hands its element to the repair function
+	var rs *ast.RangeStmt
+	ast.Inspect(fn.Decl.Body, func(n ast.Node) bool {
+		x, ok := n.(*ast.RangeStmt)
+		if !ok || rs != nil {
+			return true
+		}
+		ast.Inspect(x.Body, func(m ast.Node) bool {
+			if c, ok := m.(*ast.CallExpr); ok && len(c.Args) >= 1 {
+				if f, ok := calleeFunc(info, c); ok && FuncKey(f) == fixKey && IsLoopElem(info, x, c.Args[len(c.Args)-1]) {
+					rs = x
+				}
+			}
+			return rs == nil
+		})
+		return true
+	})
+	short := ShortFn(fnKey)
+	if rs == nil {
+		r.Unresolved(rule, short+" repairs the elements of a loop with "+ShortFn(fixKey))
+		return
+	}
+	isElem := func(e ast.Expr) bool { return IsLoopElem(info, rs, ast.Unparen(e)) }
+	isStatus := func(x ast.Expr) bool {
+		b, m := FieldPath(info, x, owner, "State", "Status")
+		return m && isElem(b)
+	}
+	statuses := []string{"workflow.Completed", "workflow.Failed", "workflow.NotStarted", "workflow.Running", "workflow.Stopped"}
+	atom := func(e ast.Expr) (string, bool, bool) {
+		for _, st := range statuses {
+			if neg, ok := EqAtom(info, e, isStatus, st); ok {
+				return "st:" + st, neg, true
+			}
+		}
+		return "", false, false
+	}
+	running := map[string]bool{}
+	for _, st := range statuses {
+		running["st:"+st] = st == "workflow.Running"
+	}
+	testsStatus := func(e Event) bool {
+		if e.Kind != EvBranch {
+			return false
+		}
+		if e.Tag != nil {
+			return isStatus(e.Tag)
+		}
+		found := false
+		if e.Cond != nil {
+			ast.Inspect(e.Cond, func(n ast.Node) bool {
+				if x, ok := n.(ast.Expr); ok && isStatus(x) {
+					found = true
+				}
+				return !found
+			})
+		}
+		return found
+	}
+	bad := ""
+	var bpos token.Pos = rs.Pos()
+	n := 0
+	for i := range paths {
+		p := &paths[i]
+		for _, sg := range scanSegments(p, rs) {
+			fix, lastTest := -1, -1
+			for j := sg.from; j < sg.to; j++ {
+				e := p.Ev[j]
+				if e.Depth > 0 || e.Deferred || e.From == fixKey {
+					continue // what the repair function itself tests is not the classification
+				}
+				if IsCall(e, fixKey) && fix < 0 {
+					fix = j
+				}
+				if testsStatus(e) {
+					lastTest = j
+				}
+			}
+			if lastTest >= 0 {
+				n++
+				if (fix < 0 || fix > lastTest) && bad == "" && !PathRefutedRange(fl, p, sg.from, sg.to, running, atom) {
+					bad = "a child that may be Running is classified (counted, resumed) by a status tested before " + ShortFn(fixKey) + " repaired it (the repair can turn a Running child into a Failed or Completed one): the parent is classified on stale statuses, e.g. a plan resumes and runs the blocks behind a block recovery has just found Failed"
+					bpos = p.Ev[lastTest].Pos
+				}
+			}
+		}
+	}
+	if n == 0 {
+		r.Unresolved(rule, short+" counts its children by status")
+		return
+	}
+	r.Check(rule, short+":children-classified-after-repair", bpos, bad == "", "%s", orOK(bad, "every count follows a status test made after the repair of that child"))
+}
+
+func ruleRepairThenClassifyAll(r *Run, rule string) {
+	ruleRepairThenClassify(r, rule, smKey("fixPlan"), smKey("fixBlock"), "workflow.Block")
+	ruleRepairThenClassify(r, rule, smKey("fixBlock"), pkgSM+".fixSeq", "workflow.Sequence")
+	ruleRepairThenClassify(r, rule, pkgSM+".fixSeq", pkgSM+".fixAction", "workflow.Action")
 }
